@@ -7,29 +7,6 @@ open SqlObjVerif.Ddl
 open SqlObjVerif.PyDdl hiding Str isUpperC
 open SqlObjVerif.PyDdl.Extracted
 
-/-- what `_getJoinsToCreate` reads of a join object -/
-structure JoinD where
-  hasInter : Bool                 -- `join.hasIntermediateTable()`
-  createRel : Option Bool         -- the attribute `createRelatedTable`, if there is one
-  selfName : Str                  -- `join.soClass.__name__`
-  otherName : Str                 -- `join.otherClass.__name__`
-  join : Join                     -- intermediateTable, joinColumn, otherColumn
-
-def nameV (s : Str) : Val := .obj C_SQLObject [("__name__", .str s)]
-
-def jV (j : JoinD) : Val :=
-  .obj C_SQLObject ([("intermediateTable", .str j.join.table), ("joinColumn", .str j.join.joinColumn),
-    ("otherColumn", .str j.join.otherColumn), ("hasInter", .bool j.hasInter), ("soClass", nameV j.selfName),
-    ("otherClass", nameV j.otherName)] ++
-    match j.createRel with
-    | none => []
-    | some b => [("createRelatedTable", .bool b)])
-
-/-- an entry of `sqlmeta.joins` (`None` = a deleted join) -/
-def joV : Option JoinD → Val
-  | none => .none
-  | some j => jV j
-
 /-- the class, as `_getJoinsToCreate` sees it -/
 def joinClsV (js : List (Option JoinD)) : Val :=
   .obj C_SQLObject [("sqlmeta", .obj C_SQLObject [("joins", .list (js.map joV))])]
